@@ -399,15 +399,31 @@ func replayOnceCmd(args []string) error {
 			res.Mismatch(v.key(), o.what, o.detail)
 		case "hang":
 			// A real deadlock under a legal schedule reproduces; a slow machine does not.
+			repro := 1
 			for i := 0; i < 2; i++ {
 				o2 := replayOnce(&v, hangWait)
 				if o2.class != "hang" {
-					internal = fmt.Errorf("schedule %s: %s -- not reproduced on re-run %d (%s)", v.key(), o.what, i+1, o2.class)
-					return nil
+					break
 				}
+				repro++
+			}
+			crossKeyBlock := strings.Contains(o.what, "a slow construction of one key blocks Get of another")
+			if repro < 3 && !crossKeyBlock {
+				internal = fmt.Errorf("schedule %s: %s -- reproduced in only %d of 3 runs", v.key(), o.what, repro)
+				return nil
 			}
 			hangs++
-			res.Mismatch(v.key(), o.what+" (reproduced in 3 of 3 runs, each waiting 10 s)", o.detail)
+			if repro == 3 {
+				res.Mismatch(v.key(), o.what+" (reproduced in 3 of 3 runs, each waiting 10 s)", o.detail)
+			} else {
+				// The observation itself is conclusive: the goroutine sat in a wait
+				// state inside syncutil for the whole grace period while only another
+				// key's constructor was parked.  Blocking that depends on per-instance
+				// state (e.g. a random hash seed choosing a shared lock) need not
+				// reproduce on a fresh instance.
+				res.Mismatch("OnceConstructor: Get of one key blocked by the parked construction of another key (instance-dependent)",
+					o.what+fmt.Sprintf(" (observed for 10 s in a wait state inside syncutil; reproduced in %d of 3 runs on fresh instances) schedule: %s", repro, v.key()), o.detail)
+			}
 		}
 		return nil
 	})
